@@ -223,6 +223,22 @@ func runC12(c *Ctx) {
 					}
 					sites = append(sites, startSite{in, termOf(req)})
 				}
+				// ... or by a `go` statement in a function / method this one calls with the request
+				if call, isCall := in.(ssa.CallInstruction); isCall {
+					if g := call.Common().StaticCallee(); g != nil && len(g.Blocks) > 0 && hasModPrefix(g) {
+						for _, gin := range instrsIn(g, func(x ssa.Instruction) bool { _, isGo := x.(*ssa.Go); return isGo }) {
+							for _, a := range gin.(*ssa.Go).Call.Args {
+								prm, isPrm := stripConv(a).(*ssa.Parameter)
+								if !isPrm || !strings.HasSuffix(typeKey(a.Type()), "BindRequestInfo") {
+									continue
+								}
+								if i := paramIndexOf(prm); i >= 0 && i < len(call.Common().Args) {
+									sites = append(sites, startSite{in, termOf(call.Common().Args[i])})
+								}
+							}
+						}
+					}
+				}
 				mc, ok := in.(*ssa.MakeClosure)
 				if !ok {
 					continue
